@@ -145,9 +145,65 @@ impl<T> Sender<T> {
         ensures match r { Ok(_) => self.sp_sent(msg), Err(TrySendError::Full(m)) => m == msg, Err(TrySendError::Disconnected(_)) => false }
     { unimplemented!() }
 }
+// ---- opaque field types of `Inner` (shared state behind `&self`): only construction is specified ----
+#[verifier::external_body]
+#[verifier::reject_recursive_types(T)]
+pub struct AtomicCell<T> { p: std::marker::PhantomData<T> }
+impl<T: Default> Default for AtomicCell<T> { #[verifier::external_body] fn default() -> Self { unimplemented!() } }
+#[verifier::external_body]
+#[verifier::reject_recursive_types(T)]
+pub struct Mutex<T> { p: std::marker::PhantomData<T> }
+impl<T> Mutex<T> { #[verifier::external_body] pub fn new(t: T) -> Self { unimplemented!() } }
+#[verifier::external_body]
+#[verifier::reject_recursive_types(T)]
+pub struct RwLock<T> { p: std::marker::PhantomData<T> }
+impl<T> RwLock<T> { #[verifier::external_body] pub fn new(t: T) -> Self { unimplemented!() } }
+#[verifier::external_body]
+pub struct AtomicBool { x: u8 }
+impl AtomicBool { #[verifier::external_body] pub fn new(v: bool) -> Self { unimplemented!() } }
+impl Default for AtomicBool { #[verifier::external_body] fn default() -> Self { unimplemented!() } }
+impl Default for AtomicInstant { #[verifier::external_body] fn default() -> Self { unimplemented!() } }
+#[verifier::external_body]
+#[verifier::reject_recursive_types(K)]
+pub struct Deques<K> { p: std::marker::PhantomData<K> }
+impl<K> Default for Deques<K> { #[verifier::external_body] fn default() -> Self { unimplemented!() } }
+#[verifier::external_body]
+pub struct FrequencySketch { x: u64 }
+impl Default for FrequencySketch { #[verifier::external_body] fn default() -> Self { unimplemented!() } }
+#[verifier::external_body]
+pub struct Clock { x: u64 }
+/// `Arc<dyn Fn(&K, &V) -> u32 + Send + Sync>` (Verus rejects `dyn` with more than one trait): opaque
+#[verifier::external_body]
+#[verifier::reject_recursive_types(K)]
+#[verifier::reject_recursive_types(V)]
+pub struct Weigher<K, V> { p: std::marker::PhantomData<(K, V)> }
+#[verifier::external_body]
+#[verifier::reject_recursive_types(T)]
+pub struct Receiver<T> { p: std::marker::PhantomData<T> }
+pub mod dashmap {
+    use vstd::prelude::*;
+    #[verifier::external_body]
+    #[verifier::reject_recursive_types(K)]
+    #[verifier::reject_recursive_types(V)]
+    #[verifier::reject_recursive_types(S)]
+    pub struct DashMap<K, V, S> { p: std::marker::PhantomData<(K, V, S)> }
+    impl<K, V, S> DashMap<K, V, S> {
+        /// an empty map; the capacity hint is unobservable
+        #[verifier::external_body]
+        pub fn with_capacity_and_hasher(capacity: usize, hasher: S) -> Self { unimplemented!() }
+    }
+}
+pub mod crossbeam_channel {
+    use vstd::prelude::*;
+    #[verifier::external_body]
+    pub fn bounded<T>(cap: usize) -> (super::Sender<T>, super::Receiver<T>) { unimplemented!() }
+}
+impl Default for Housekeeper { #[verifier::external_body] fn default() -> Self { unimplemented!() } }
 /// std's default hasher state: opaque
 #[verifier::external_body]
 pub struct RandomState { x: u64 }
+impl Default for RandomState { #[verifier::external_body] fn default() -> Self { unimplemented!() } }
+impl Clone for RandomState { #[verifier::external_body] fn clone(&self) -> Self { unimplemented!() } }
 /// src/common/concurrent/housekeeper.rs (atomics): opaque
 #[verifier::external_body]
 pub struct Housekeeper { x: u64 }
@@ -299,18 +355,84 @@ impl EvictionCounters {
 //@@ END
 }
 
-/// only the fields the functions under contract read are declared (a renamed or retyped field makes the unit fail to
-/// compile: reported as undecided)
+type CacheStore<K, V, S> = dashmap::DashMap<Arc<K>, TrioArc<ValueEntry<K, V>>, S>;
+//@@ CONST file=src/common/concurrent/constants.rs name=MAX_SYNC_REPEATS
+//@@ CONST file=src/common/concurrent/constants.rs name=READ_LOG_FLUSH_POINT
+//@@ CONST file=src/common/concurrent/constants.rs name=READ_LOG_SIZE
+//@@ CONST file=src/common/concurrent/constants.rs name=WRITE_LOG_FLUSH_POINT
+//@@ CONST file=src/common/concurrent/constants.rs name=WRITE_LOG_SIZE
+//@@ STRUCT file=src/sync/base_cache.rs name=Inner
 #[verifier::reject_recursive_types(K)]
 #[verifier::reject_recursive_types(V)]
 #[verifier::reject_recursive_types(S)]
 pub struct Inner<K, V, S> {
     pub max_capacity: Option<u64>,
+    pub entry_count: AtomicCell<u64>,
+    pub weighted_size: AtomicCell<u64>,
+    pub cache: CacheStore<K, V, S>,
+    pub build_hasher: S,
+    pub deques: Mutex<Deques<K>>,
+    pub frequency_sketch: RwLock<FrequencySketch>,
+    pub frequency_sketch_enabled: AtomicBool,
+    pub read_op_ch: Receiver<ReadOp<K, V>>,
+    pub write_op_ch: Receiver<WriteOp<K, V>>,
     pub time_to_live: Option<Duration>,
     pub time_to_idle: Option<Duration>,
     pub valid_after: AtomicInstant,
-    pub build_hasher: S,
-    pub kv: std::marker::PhantomData<(K, V)>,
+    pub weigher: Option<Weigher<K, V>>,
+    pub has_expiration_clock: AtomicBool,
+    pub expiration_clock: RwLock<Option<Clock>>,
+}
+//@@ END
+
+impl<K, V, S: Clone> Inner<K, V, S> {
+    /// the configuration a cache was built with (C17)
+    pub open spec fn built_with(&self, max_capacity: Option<u64>, build_hasher: S, weigher: Option<Weigher<K, V>>, time_to_live: Option<Duration>, time_to_idle: Option<Duration>) -> bool {
+        self.max_capacity == max_capacity && self.build_hasher == build_hasher && self.weigher == weigher && self.time_to_live == time_to_live && self.time_to_idle == time_to_idle
+    }
+//@@ FN file=src/sync/base_cache.rs owner=Inner name=new tags=C17
+    fn new(
+        max_capacity: Option<u64>,
+        initial_capacity: Option<usize>,
+        build_hasher: S,
+        weigher: Option<Weigher<K, V>>,
+        read_op_ch: Receiver<ReadOp<K, V>>,
+        write_op_ch: Receiver<WriteOp<K, V>>,
+        time_to_live: Option<Duration>,
+        time_to_idle: Option<Duration>,
+    ) -> /*@+*/(r:/*@-*/ Self/*@+*/)/*@-*/
+        // ASSUMPTION on the configuration: the initial capacity plus the write-log size fits in usize (a larger request makes the
+        // map constructor of the dependency panic on the same input in any case: dashmap / hashbrown "capacity overflow")
+        requires initial_capacity.is_some() ==> initial_capacity.unwrap() + WRITE_LOG_SIZE <= usize::MAX, //@ [C08]
+        // C17: every knob is stored exactly as given, whatever the initial capacity
+        ensures r.built_with(max_capacity, build_hasher, weigher, time_to_live, time_to_idle), r.read_op_ch == read_op_ch, r.write_op_ch == write_op_ch, //@ [C17]
+    {
+        let initial_capacity = initial_capacity
+            .map(|cap| /*@+*/-> (c: usize) requires cap + WRITE_LOG_SIZE <= usize::MAX {/*@-*/ cap + WRITE_LOG_SIZE /*@+*/}/*@-*/)
+            .unwrap_or_default();
+        let cache =
+            dashmap::DashMap::with_capacity_and_hasher(initial_capacity, build_hasher.clone());
+
+        Self {
+            max_capacity,
+            entry_count: Default::default(),
+            weighted_size: Default::default(),
+            cache,
+            build_hasher,
+            deques: Mutex::new(Default::default()),
+            frequency_sketch: RwLock::new(Default::default()),
+            frequency_sketch_enabled: Default::default(),
+            read_op_ch,
+            write_op_ch,
+            time_to_live,
+            time_to_idle,
+            valid_after: Default::default(),
+            weigher,
+            has_expiration_clock: AtomicBool::new(false),
+            expiration_clock: RwLock::new(None),
+        }
+    }
+//@@ END
 }
 
 impl<K, V, S> Inner<K, V, S> {
@@ -433,6 +555,7 @@ impl<K, V, S> Inner<K, V, S> {
 #[verifier::reject_recursive_types(S)]
 pub struct BaseCache<K, V, S> {
     pub inner: Arc<Inner<K, V, S>>,
+    pub read_op_ch: Sender<ReadOp<K, V>>,
     pub write_op_ch: Sender<WriteOp<K, V>>,
     pub housekeeper: Option<Arc<Housekeeper>>,
 }
@@ -602,6 +725,42 @@ impl<K, V, S> BaseCache<K, V, S> {
 //@@ END
 }
 
+impl<K, V, S: Clone> BaseCache<K, V, S> {
+//@@ FN file=src/sync/base_cache.rs owner=BaseCache name=new tags=C17
+    pub(crate) fn new(
+        max_capacity: Option<u64>,
+        initial_capacity: Option<usize>,
+        build_hasher: S,
+        weigher: Option<Weigher<K, V>>,
+        time_to_live: Option<Duration>,
+        time_to_idle: Option<Duration>,
+    ) -> /*@+*/(r:/*@-*/ Self/*@+*/)/*@-*/
+        requires initial_capacity.is_some() ==> initial_capacity.unwrap() + WRITE_LOG_SIZE <= usize::MAX, //@ [C08]
+        ensures r.inner.built_with(max_capacity, build_hasher, weigher, time_to_live, time_to_idle), //@ [C17]
+    {
+        let (r_snd, r_rcv) = crossbeam_channel::bounded(READ_LOG_SIZE);
+        let (w_snd, w_rcv) = crossbeam_channel::bounded(WRITE_LOG_SIZE);
+
+        let inner = Inner::new(
+            max_capacity,
+            initial_capacity,
+            build_hasher,
+            weigher,
+            r_rcv,
+            w_rcv,
+            time_to_live,
+            time_to_idle,
+        );
+        Self {
+            #[cfg_attr(beta_clippy, allow(clippy::arc_with_non_send_sync))]
+            inner: Arc::new(inner),
+            read_op_ch: r_snd,
+            write_op_ch: w_snd,
+            housekeeper: Some(Arc::new(Housekeeper::default())),
+        }
+    }
+//@@ END
+}
 impl<K, V: Clone, S> BaseCache<K, V, S> {
 //@@ FN file=src/sync/base_cache.rs owner=BaseCache name=get_with_hash tags=C01,C06
     pub(crate) fn get_with_hash<Q>(&self, key: &Q, hash: u64) -> /*@+*/(r:/*@-*/ Option<V>/*@+*/)/*@-*/
@@ -795,6 +954,44 @@ impl<K, V, S> Cache<K, V, S> {
             )
             .expect("Failed to remove");
         }
+    }
+//@@ END
+}
+impl<K, V, S: Clone> Cache<K, V, S> {
+//@@ FN file=src/sync/cache.rs owner=Cache name=with_everything tags=C17
+    pub(crate) fn with_everything(
+        max_capacity: Option<u64>,
+        initial_capacity: Option<usize>,
+        build_hasher: S,
+        weigher: Option<Weigher<K, V>>,
+        time_to_live: Option<Duration>,
+        time_to_idle: Option<Duration>,
+    ) -> /*@+*/(r:/*@-*/ Self/*@+*/)/*@-*/
+        requires initial_capacity.is_some() ==> initial_capacity.unwrap() + WRITE_LOG_SIZE <= usize::MAX, //@ [C08]
+        // C17: the cache is built with exactly the given knobs; `initial_capacity` is not one of them
+        ensures r.sp_base().inner.built_with(max_capacity, build_hasher, weigher, time_to_live, time_to_idle), //@ [C17]
+    {
+        Self {
+            base: BaseCache::new(
+                max_capacity,
+                initial_capacity,
+                build_hasher,
+                weigher,
+                time_to_live,
+                time_to_idle,
+            ),
+        }
+    }
+//@@ END
+}
+impl<K, V> Cache<K, V, RandomState> {
+//@@ FN file=src/sync/cache.rs owner=Cache name=new tags=C17
+    pub fn new(max_capacity: u64) -> /*@+*/(r:/*@-*/ Self/*@+*/)/*@-*/
+        // C17: `new(n)` is the cache the builder gives for `max_capacity(n)` and nothing else
+        ensures exists|h: RandomState| #[trigger] r.sp_base().inner.built_with(Some(max_capacity), h, None, None, None), //@ [C17]
+    {
+        let build_hasher = RandomState::default();
+        Self::with_everything(Some(max_capacity), None, build_hasher, None, None, None)
     }
 //@@ END
 }
